@@ -19,7 +19,7 @@ import (
 // TokOp is one operation of the token state machine.
 type TokOp struct {
 	Kind string `json:"kind"` // create | revoke | http | ws | restart
-	Tok  int    `json:"tok"`  // >=0 index into issued tokens (mod len); -1 unknown; -2 admin
+	Tok  int    `json:"tok"`  // >=0 index into issued tokens (mod len); -1 unknown; -2 admin; -3 the empty token
 	// Mut (revoke only): 0 = the token itself; otherwise a never-issued look-alike derived from it: 1 letter case swapped,
 	// 2 first 8 characters + "%", 3 "%", 4 underscores of the same length, 5 one character replaced by "_", 6 "%" + last 8
 	Mut int `json:"mut,omitempty"`
@@ -78,6 +78,8 @@ func runC10(p *C10Plan) (*stats.Case, error) {
 		switch {
 		case i == -2:
 			return c10Admin
+		case i == -3:
+			return "" // no token at all (websocket connect without a token, "Bearer " on HTTP)
 		case i < 0 || len(issued) == 0:
 			return "unknowntoken00000000000000000000"
 		}
@@ -320,6 +322,8 @@ var propC10 = Prop[*C10Plan]{
 				op.Tok = -1
 			case k == 1:
 				op.Tok = -2
+			case k == 2 && op.Kind != "revoke":
+				op.Tok = -3
 			default:
 				op.Tok = rapid.IntRange(0, 12).Draw(t, "ti")
 			}
